@@ -89,7 +89,7 @@ Definition cout_eqb (strict : bool) (a b : cout) : bool :=
   | _, _ => false
   end.
 
-Definition FUEL : nat := 60.
+Definition FUEL : nat := 150.
 
 Inductive ccase :=
 | CS (cfg : ccfg) (t : ty) (o : val) (expect : cout)
